@@ -327,7 +327,7 @@ class PlaceEngine(object):
         self.cons = rig_module("rig.place_and_route.constraints")
         exc = rig_module("rig.place_and_route.exceptions")
         self.build()
-        g = self.g = prgen.Graph()
+        g = self.g = prgen.Graph(t)
         complete = t.draw(3) == 0
         n_ops = t.op_count(0, 16)
         g.sdram_max = 9 if self.tight else 2000
